@@ -1812,6 +1812,10 @@ class C19(Spec):
             hb = drive_engine.histories(eager.root)
             worst = None
             posdiff = False
+            # the twins differ in the last bits of sums (children iterate in another order); an iterative optimiser in a stack
+            # (mean-variance, risk parity) turns last-bit differences of its inputs into 1e-8-level differences of its weights
+            iterative = any(a.get("a") in ("WeighMeanVar", "WeighERC") or (a.get("algo") or {}).get("a") in ("WeighMeanVar", "WeighERC") for _p2, s2 in drive_engine.trees.strategies(plan["tree"]) for a in s2.get("algos", []))
+            twin_rel = 1e-6 if iterative else 1e-10
             gscale = max(1.0, float(np.nanmax(np.abs(lazy.root.data["value"].to_numpy(dtype=float)))))
             for name in sorted(set(ha) | set(hb)):
                 ca, cb = ha.get(name, {}), hb.get(name, {})
@@ -1825,7 +1829,7 @@ class C19(Spec):
                         break
                     scale = max(gscale, float(np.nanmax(np.abs(np.concatenate([x, y])))) if len(x) else gscale)
                     d = np.abs(np.nan_to_num(x) - np.nan_to_num(y))
-                    if len(d) and float(d.max()) > 1e-10 * scale + (1e-6 if c in ("price",) else 0) * 0:
+                    if len(d) and float(d.max()) > twin_rel * scale:
                         i = int(d.argmax())
                         if c == "position":
                             posdiff = True
